@@ -327,7 +327,15 @@ class Builder:
         if a is None:
             return
         self.features.add("dropout")
-        k = self.r.randrange(3)
+        k = self.r.randrange(4)
+        if k == 3:
+            # training_mode decided at run time (a graph input): must not be optimized away
+            t = next((v for v in self.inputs if v.dt == B and v.shape == ()), None)
+            if t is None:
+                t = self.add_input(B, ())
+            ratio = self.const(np.array(self.r.choice([0.5, 0.0]), dtype=np.float32))
+            self.features.add("dropout_runtime_training")
+            return self.emit("Dropout", [a, ratio, t], F, a.shape, seed=7)
         if k == 0:
             return self.emit("Dropout", [a], F, a.shape)
         if k == 1:
